@@ -403,47 +403,67 @@ def compare_spec(c_lines, died, s_lines, stats):
     if ill is None and len(c_lines) != len(s_lines): return 'different number of lines: impl %d, spec %d' % (len(c_lines), len(s_lines))
     return None
 
-def check_histories(env, hists, mode, stats, jobs=14):
-    """run histories through implementation and model/spec; returns list of (hist, difference)"""
+def check_histories(env, hists, stats, jobs=14, modes=('model', 'spec')):
+    """run histories through the implementation, the model and the specification.
+    Returns a list of (hist, mode, difference): mode 'model' = model and implementation disagree (the tie),
+    mode 'spec' = the implementation does not do what the property says (a violation)."""
     mats = [env.materialise(h) for h in hists]
     with ThreadPoolExecutor(max_workers=jobs) as ex:
         cres = list(ex.map(lambda dh: env.run_c(*dh), mats))
-    # several model processes in parallel
     hps = [hp for _, hp in mats]
     chunks = [hps[i::jobs] for i in range(jobs) if hps[i::jobs]]
-    with ThreadPoolExecutor(max_workers=jobs) as ex:
-        mres = {}
-        for r in ex.map(lambda c: env.run_model(mode, c), chunks): mres.update(r)
+    res = {}
+    for mode in modes:
+        with ThreadPoolExecutor(max_workers=jobs) as ex:
+            res[mode] = {}
+            for r in ex.map(lambda c: env.run_model(mode, c), chunks): res[mode].update(r)
     bad = []
     for h, (d, hp), (cl, died) in zip(hists, mats, cres):
-        ml = mres.get(hp, [])
-        diff = compare_model(cl, died, ml, stats) if mode == 'model' else compare_spec(cl, died, ml, stats)
-        stats['ops'] = stats.get('ops', 0) + len(h.ops)
-        stats['lines'] = stats.get('lines', 0) + len(cl)
-        for l in cl:
-            if l.startswith('op '):
-                t = l.split(' ')
-                key = t[2] + (':fail' if ' err=' in l and not l.endswith('err=-') else ':ok')
-                stats.setdefault('dist', {}); stats['dist'][key] = stats['dist'].get(key, 0) + 1
-                if ' err=' in l and not l.endswith('err=-'):
-                    msg = re.sub(r'(crystal|Crystal) \S+', r'\1 <name>', l.split(' err=')[1]); msg = re.sub(r'line \d+', 'line <n>', msg); msg = re.sub(r'open \S+ for reading.*', 'open <file>', msg)
-                    stats.setdefault('errors', {}); stats['errors'][msg] = stats['errors'].get(msg, 0) + 1
-            elif l.startswith('A') and ' alloc=' in l:
-                m = re.search(r'n=(\d+) alloc=(\d+)', l)
-                if m: stats['max_n'] = max(stats.get('max_n', 0), int(m.group(1))); stats['max_alloc'] = max(stats.get('max_alloc', 0), int(m.group(2)))
-            elif l.startswith('B list '):
-                stats['max_builtin'] = max(stats.get('max_builtin', 0), int(l.split(' ')[2]))
-        if died: stats['impl_aborts'] = stats.get('impl_aborts', 0) + 1
+        for mode in modes:
+            ml = res[mode].get(hp, [])
+            if mode == 'model':
+                diff = compare_model(cl, died, ml, stats)
+            else:
+                if h.kind == 'misuse': continue
+                diff = compare_spec(cl, died, ml, stats)
+            if diff: bad.append((h, mode, diff))
+        account(h, cl, died, stats)
         shutil.rmtree(d, ignore_errors=True)
-        if diff: bad.append((h, diff))
     return bad
+
+def account(h, cl, died, stats):
+    stats['histories'] = stats.get('histories', 0) + 1
+    stats['ops'] = stats.get('ops', 0) + len(h.ops)
+    stats['lines'] = stats.get('lines', 0) + len(cl)
+    stats.setdefault('kinds', {}); stats['kinds'][h.kind] = stats['kinds'].get(h.kind, 0) + 1
+    mutated = False
+    for l in cl:
+        if l.startswith('op '):
+            t = l.split(' ')
+            failed = ' err=' in l and not l.endswith('err=-')
+            key = t[2] + (':fail' if failed else ':ok')
+            stats.setdefault('dist', {}); stats['dist'][key] = stats['dist'].get(key, 0) + 1
+            if not failed and t[2] in ('add', 'read'): mutated = True
+            if failed:
+                msg = re.sub(r'(crystal|Crystal) \S+', r'\1 <name>', l.split(' err=')[1]); msg = re.sub(r'line \d+', 'line <n>', msg); msg = re.sub(r'open \S+ for reading.*', 'open <file>', msg)
+                stats.setdefault('errors', {}); stats['errors'][msg] = stats['errors'].get(msg, 0) + 1
+        elif l.startswith('A') and ' alloc=' in l:
+            m = re.search(r'n=(\d+) alloc=(\d+)', l)
+            if m:
+                n, al = int(m.group(1)), int(m.group(2))
+                stats['max_n'] = max(stats.get('max_n', 0), n); stats['max_alloc'] = max(stats.get('max_alloc', 0), al)
+        elif l.startswith('B list '):
+            stats['max_builtin'] = max(stats.get('max_builtin', 0), int(l.split(' ')[2]))
+    if died: stats['impl_aborts'] = stats.get('impl_aborts', 0) + 1
+    if mutated:
+        stats.setdefault('_nontrivial', set()).add(hashlib.sha256(h.to_json().encode()).hexdigest())
 
 def shrink(env, h, mode, budget=400):
     """greedy one-op-at-a-time minimisation of a disagreeing history (handles are renumbered by Hist.drop)"""
     st = {}
     def fails(x):
-        r = check_histories(env, [x], mode, st, jobs=1)
-        return r[0][1] if r else None
+        r = check_histories(env, [x], st, jobs=1, modes=(mode,))
+        return r[0][2] if r else None
     cur = h; why = fails(h)
     if why is None: return h, 'not reproducible'
     # 1. cut the tail, 2. drop single ops from the end to the start, 3. simplify files and crystals
